@@ -177,7 +177,12 @@ func compile(g *lookup, tok *token, optimize bool) (ins []instruction, slots int
 func (c *compiler) run(tok *token) (ins []instruction, slots int, err error) {
 	defer func() {
 		if r := recover(); r != nil {
-			err = fmt.Errorf("%v: %v", c.cur.Pos, r)
+			if c.cur != nil {
+				err = fmt.Errorf("%v: %v", c.cur.Pos, r)
+			} else {
+				// the failing node itself was missing (e.g. an operator without operand)
+				err = fmt.Errorf("%v", r)
+			}
 		}
 	}()
 	res := c.optimize(c.compileAll(tok.Tokens))
